@@ -2,7 +2,7 @@ package main
 
 import (
 	"fmt"
-	"go/token"
+	"go/types"
 	"strings"
 
 	"golang.org/x/tools/go/ssa"
@@ -11,497 +11,881 @@ import (
 func init() {
 	register(&propDef{
 		id: "C25", run: runC25, minOblig: 18,
-		explanation: "Decides RFC 4253 section 6 framing structure of the four SSH packet cipher writers and the sequence/IV bookkeeping: (framing arithmetic, evaluated with Go's fixed-width semantics for payload lengths 0..40, 255, 256, 1000, 32768 and every MAC/EtM/block-size combination) the padding length written is >= 4 and < 4 + block, the encrypted part is a multiple of the block size (16 stream/GCM, 8 chacha20-poly1305, max(8, cipher block) CBC; the 4 length bytes excluded for EtM, GCM and chacha20-poly1305), the length field equals 1 + payload + padding, and CBC packets are at least 16 bytes; (MAC placement) for the stream cipher the first MAC input after Reset is the big-endian sequence number; with EtM the payload is MACed after encryption by the writer and before decryption by the reader, without EtM the other way round (order of mac.Write(payload) and XORKeyStream(payload) evaluated under both flag values); (AEAD) GCM seals and opens with the 4-byte prefix as additional data and increments the invocation counter iv[4:12] — all eight bytes, most significant last — after every packet in both directions; chacha20-poly1305 uses key[:32] for the payload and key[32:] for the length, MACs after encrypting and puts the sequence number in nonce[8:12]; (sequence numbers) connectionState passes seqNum to the cipher and increments it on every path of readPacket and on every non-error path of writePacket. NOT decided: byte-exact framing against an independent implementation; counter wrap-around.",
-		assumptions: []string{"hash.Hash / cipher.Stream / cipher.AEAD contracts"},
+		explanation: "Decides, by abstract interpretation of the packet cipher methods over a byte-level memory model (ssh-package helpers interpreted in place, crypto primitives modelled; memory identified by struct field, parameter index or allocation, never by the name of a local, parameter or receiver), what the four SSH packet cipher writers put on the io.Writer and what the stream, GCM and chacha20-poly1305 readers do with such bytes, for payload lengths 0..40, 255, 256, 1000, 32768, every MAC/EtM/block-size combination and both buffer-growth paths: (framing, RFC 4253 section 6) the bytes written are length || padding_length || payload || random padding || MAC/tag in this order, padding is >= 4 and < 4 + block, the aligned part is a multiple of the block size (16 stream/GCM, 8 chacha20-poly1305, max(8, cipher block) CBC; the 4 length bytes excluded for EtM, GCM and chacha20-poly1305), the length field equals 1 + payload + padding, CBC packets are at least 16 bytes, and every byte that must be encrypted is encrypted exactly once, at the keystream position of its place in the packet (the length stays in clear for EtM and GCM); (MAC) the first MAC input after Reset is the big-endian sequence number, followed by exactly the packet bytes — as sent (ciphertext) with EtM, as plaintext without — and the MAC output is what is appended (writer) or compared with the received MAC (reader); readers return exactly the payload bytes, decrypted; (AEAD) GCM seals and opens under the current IV with the 4-byte length as additional data and afterwards the IV is the old IV with the 64-bit big-endian invocation counter iv[4:12] incremented by one modulo 2^64 (eleven counter values including every carry length and the wrap), the fixed field iv[0:4] untouched, and is unchanged when Open fails; chacha20-poly1305 uses key[:32] for the payload and key[32:] for the length, both with nonce = 8 zero bytes || big-endian sequence number, derives the Poly1305 key from the first 32 keystream bytes of the payload cipher, encrypts the payload from keystream block 1, and computes/verifies the tag over the encrypted length and ciphertext; RC4 variants discard the RFC 4345 amount of keystream; (sequence numbers) connectionState passes seqNum to the cipher and increments it on every path of readPacket and on every non-error path of writePacket (helpers followed). NOT decided: byte-exact output against an independent implementation; the CBC reader; sequence-number wrap.",
+		assumptions: []string{"hash.Hash / cipher.Stream / cipher.BlockMode / cipher.AEAD / chacha20 / poly1305 contracts"},
 	})
-	tech("C25", "finite-domain evaluation of padding/length arithmetic, flag-conditioned ordering rules on the CFG, loop-bound extraction for the GCM counter, argument-shape rules")
+	tech("C25", "abstract interpretation (pathWalker + byte-level memory and keystream model) of the cipher methods over a finite grid of payload lengths, modes and IVs; interprocedural CFG ordering rule for the sequence counter")
+}
+
+const c25seq = 0x01020304
+
+var c25payloads = []int64{0, 1, 2, 3, 4, 5, 6, 7, 8, 9, 10, 11, 12, 13, 14, 15, 16, 17, 18, 19, 20, 21, 22, 23, 24, 25, 26, 27, 28, 29, 30, 31, 32, 33, 39, 40, 255, 256, 1000, 32768}
+
+// IV counter values: every carry length, the wrap, and sign-bit patterns.
+var c25counters = []uint64{0, 0xfe, 0xff, 0xffff, 0x0100ff, 0xffffffff, 0xffffffffff, 0x00ffffffffffffff, 0x7fffffffffffffff, 0x0102030405060708, 0xffffffffffffffff}
+
+type c25case struct {
+	pl, mac, etm, bs int64
+	bigCap           bool
+	counter          uint64
+	failOpen         bool
+	probe            bool
+	ivObj            string // storage object of the GCM IV ("" = none)
+	script           func(pos int64) c25cell
+}
+
+func (cs c25case) String() string {
+	return fmt.Sprintf("payload=%d mac=%d etm=%d block=%d grow=%v", cs.pl, cs.mac, cs.etm, cs.bs, !cs.bigCap)
+}
+
+var c25ivFixed = []int64{0xde, 0xad, 0xbe, 0xef}
+
+func c25ivBytes(counter uint64) []int64 {
+	out := append([]int64(nil), c25ivFixed...)
+	for i := 7; i >= 0; i-- {
+		out = append(out, int64(counter>>(8*uint(i))&0xff))
+	}
+	return out
+}
+
+// c25run interprets one cipher method for one case. Parameters by index:
+// writers (recv, seqNum, w, rand, packet), readers (recv, seqNum, r).
+func c25run(f *ssa.Function, cs c25case, reader bool) (*c25sim, *pathWalker, string) {
+	s := newC25sim(f)
+	s.reader = reader
+	if reader {
+		s.srcIdx = 2
+		s.script = cs.script
+	} else {
+		s.sinkIdx, s.srcIdx = 2, 3
+	}
+	s.bigCap, s.failOpen, s.probe = cs.bigCap, cs.failOpen, cs.probe
+	if cs.bs > 0 {
+		s.blockSize = cs.bs
+	}
+	s.fields["etm"] = cs.etm
+	s.fields["macSize"] = cs.mac * s.macSize
+	s.nilIface = func(t types.Type) (bool, bool) {
+		if c25typeIs(t, "hash.Hash") {
+			return cs.mac == 0, true
+		}
+		return false, false
+	}
+	if cs.ivObj != "" {
+		for i, b := range c25ivBytes(cs.counter) {
+			s.put(cs.ivObj, int64(i), c25cell{known: true, v: b})
+		}
+		s.fieldLen[strings.TrimPrefix(cs.ivObj, "S:")] = 12
+	}
+	w := s.walker()
+	if len(f.Params) > 1 {
+		w.env.bind(f.Params[1], c25seq)
+	}
+	if !reader && len(f.Params) > 4 {
+		w.env.bind(f.Params[4], cs.pl)
+	}
+	end := w.walk(f.Blocks[0], nil)
+	if end != "return" {
+		return s, w, fmt.Sprintf("evaluation ended with %s %s", end, w.why)
+	}
+	if s.problem != "" {
+		return s, w, s.problem
+	}
+	if w.oob {
+		return s, w, "an index or slice expression leaves its bounds"
+	}
+	return s, w, ""
+}
+
+// c25frame: the written bytes start with length || padding_length || payload ||
+// random padding.
+func c25frame(wire []c25cell, pl int64, payloadTag string) (L, P int64, bad string) {
+	if len(wire) < 5 {
+		return 0, 0, fmt.Sprintf("only %d bytes are written", len(wire))
+	}
+	L, ok := c25be(wire[:4])
+	if !ok {
+		return 0, 0, "the first four bytes written are not a computed length field"
+	}
+	if !wire[4].known {
+		return L, 0, "the fifth byte written is not a computed padding length"
+	}
+	P = wire[4].v
+	if P < 4 || L != 1+pl+P {
+		return L, P, fmt.Sprintf("padding %d, length field %d (need padding >= 4 and length = 1+payload+padding)", P, L)
+	}
+	if int64(len(wire)) < 4+L {
+		return L, P, fmt.Sprintf("length field %d but only %d bytes are written", L, len(wire))
+	}
+	for i := int64(0); i < pl; i++ {
+		if c := wire[5+i]; c.tag != payloadTag || c.idx != i {
+			return L, P, fmt.Sprintf("byte %d of the packet is not payload byte %d", 5+i, i)
+		}
+	}
+	for j := int64(0); j < P; j++ {
+		c := wire[5+pl+j]
+		if c.tag != "rand" || (j > 0 && c.idx != wire[5+pl].idx+j) {
+			return L, P, fmt.Sprintf("padding byte %d is not fresh random data", j)
+		}
+	}
+	return L, P, ""
+}
+
+// c25encrypted: wire[lo:hi) is encrypted once, all under one keystream, byte i
+// at keystream offset ks0+(i-lo). Returns the keystream identity.
+func c25encrypted(wire []c25cell, lo, hi, ks0 int64, checkKS bool) (string, string) {
+	id := ""
+	for i := lo; i < hi; i++ {
+		c := wire[i]
+		switch {
+		case c.enc == "":
+			return id, fmt.Sprintf("byte %d of the packet is sent unencrypted", i)
+		case c.enc == "mixed":
+			return id, fmt.Sprintf("byte %d of the packet is encrypted twice or under the wrong keystream position", i)
+		case id != "" && c.enc != id:
+			return id, fmt.Sprintf("byte %d of the packet is encrypted under a different cipher than byte %d", i, lo)
+		case checkKS && c.ks != ks0+(i-lo):
+			return id, fmt.Sprintf("byte %d of the packet is encrypted at keystream offset %d instead of %d", i, c.ks, ks0+(i-lo))
+		}
+		id = c.enc
+	}
+	return id, ""
+}
+
+func c25clear(wire []c25cell, lo, hi int64) string {
+	for i := lo; i < hi; i++ {
+		if wire[i].enc != "" {
+			return fmt.Sprintf("byte %d of the packet must stay in clear but is encrypted", i)
+		}
+	}
+	return ""
+}
+
+func c25tail(wire []c25cell, from int64, tag string, n int64) string {
+	if int64(len(wire)) != from+n {
+		return fmt.Sprintf("%d bytes are written, expected %d (4 + length + %d bytes of %s)", len(wire), from+n, n, tag)
+	}
+	for i := int64(0); i < n; i++ {
+		if c := wire[from+i]; c.tag != tag || c.idx != i || c.enc != "" {
+			return fmt.Sprintf("byte %d after the packet is not byte %d of the %s", i, i, tag)
+		}
+	}
+	return ""
+}
+
+// c25macInput: the bytes absorbed between the last Reset and the Sum.
+func c25macInput(evs []c25ev) (in []c25cell, bad string) {
+	started, summed := false, false
+	for _, e := range evs {
+		switch e.kind {
+		case "mac.reset":
+			started, summed, in = true, false, nil
+		case "mac.write":
+			if !started {
+				return nil, "MAC input before Reset"
+			}
+			if summed {
+				return nil, "MAC input after the MAC was taken"
+			}
+			in = append(in, e.data...)
+		case "mac.sum":
+			summed = true
+		}
+	}
+	if !started || !summed {
+		return nil, "no Reset … Sum sequence on the MAC"
+	}
+	return in, ""
+}
+
+// c25macCheck compares the MAC input with seq || packet. image is the packet
+// as on the wire; with etm the MAC must absorb exactly that, without etm its
+// plaintext. Returns (seq problem, order problem).
+func c25macCheck(evs []c25ev, image []c25cell, etm bool) (string, string) {
+	in, bad := c25macInput(evs)
+	if bad != "" {
+		return bad, bad
+	}
+	seqBad := ""
+	if len(in) < 4 {
+		return "the MAC's first input is not the big-endian sequence number of this packet", "the MAC input is shorter than a sequence number"
+	}
+	if v, ok := c25be(in[:4]); !ok || v != c25seq || c25clear(in, 0, 4) != "" {
+		seqBad = "the MAC's first input is not the big-endian sequence number of this packet"
+	}
+	body := in[4:]
+	if len(body) != len(image) {
+		return seqBad, fmt.Sprintf("the MAC absorbs %d bytes after the sequence number, the packet has %d", len(body), len(image))
+	}
+	for i := range body {
+		if !c25sameContent(body[i], image[i]) {
+			return seqBad, fmt.Sprintf("MAC input byte %d is not byte %d of the packet", i, i)
+		}
+		if etm && (body[i].enc != image[i].enc || body[i].ks != image[i].ks) {
+			return seqBad, fmt.Sprintf("etm=1: MAC input byte %d is not the byte as it is on the wire (encrypt-then-MAC requires the MAC over the ciphertext)", i)
+		}
+		if !etm && body[i].enc != "" {
+			return seqBad, fmt.Sprintf("etm=0: MAC input byte %d is ciphertext (encrypt-and-MAC requires the MAC over the plaintext)", i)
+		}
+	}
+	return seqBad, ""
+}
+
+func c25first(dst *string, format string, a ...any) {
+	if *dst == "" {
+		*dst = fmt.Sprintf(format, a...)
+	}
+}
+
+func c25pad(pl, block, skip int64) (P, L int64) {
+	P = block - (5+pl-skip)%block
+	if P < 4 {
+		P += block
+	}
+	return P, 1 + pl + P
+}
+
+// c25wireScript: a well-formed incoming packet for payload length pl: cells of
+// the wire image, position by position.
+func c25wireScript(pl, L, P int64, enc func(pos int64) (string, int64), tailTag string) func(int64) c25cell {
+	return func(pos int64) c25cell {
+		c := c25cell{tag: "w", idx: pos}
+		switch {
+		case pos < 4:
+			c = c25cell{known: true, v: L >> (8 * uint(3-pos)) & 0xff}
+		case pos == 4:
+			c = c25cell{known: true, v: P}
+		case pos >= 4+L:
+			return c25cell{tag: tailTag, idx: pos - (4 + L)}
+		}
+		c.enc, c.ks = enc(pos)
+		return c
+	}
+}
+
+// c25returned: the reader returns exactly the payload bytes, decrypted.
+func c25returned(s *c25sim, w *pathWalker, pl int64) string {
+	ret, ok := w.last.(*ssa.Return)
+	if !ok || len(ret.Results) < 1 {
+		return "no payload is returned"
+	}
+	r, n, ok := s.region(w, ret.Results[0])
+	if !ok {
+		return "the returned payload lies outside the model"
+	}
+	if n != pl {
+		return fmt.Sprintf("%d bytes are returned for a payload of %d", n, pl)
+	}
+	for i, c := range s.snapshot(r, n) {
+		if c.tag != "w" || c.idx != 5+int64(i) {
+			return fmt.Sprintf("returned byte %d is not payload byte %d of the packet", i, i)
+		}
+		if c.enc != "" {
+			return fmt.Sprintf("returned byte %d is not decrypted (or decrypted at the wrong keystream position)", i)
+		}
+	}
+	return ""
 }
 
 func runC25(c *Ctx) {
 	c25RC4Discard(c)
-	payloads :=[]int64{0, 1, 2, 3, 4, 5, 6, 7, 8, 9, 10, 11, 12, 13, 14, 15, 16, 17, 18, 19, 20, 21, 22, 23, 24, 25, 26, 27, 28, 29, 30, 31, 32, 33, 39, 40, 255, 256, 1000, 32768}
-	// ---------- stream writer
-	if f := c.fn("ssh", "(*streamPacketCipher).writeCipherPacket"); f != nil {
-		pkt := f.Params[4]
-		var lenV, padV ssa.Value
-		for _, ci := range calls(f, func(n string) bool { return strings.HasSuffix(n, ").PutUint32") }) {
-			a := ci.Common().Args
-			if accessPath(sliceBase(a[len(a)-2])) == "s.prefix" {
-				lenV = a[len(a)-1]
-			}
-		}
-		allInstrs(f, func(in ssa.Instruction) {
-			if st, ok := in.(*ssa.Store); ok {
-				if ia, ok := st.Addr.(*ssa.IndexAddr); ok && accessPath(ia.X) == "s.prefix" {
-					if k, ok := constInt(ia.Index); ok && k == 4 {
-						padV = st.Val
-					}
-				}
-			}
-		})
-		bad := ""
+	c25Stream(c)
+	c25GCM(c)
+	c25ChaCha(c)
+	c25CBC(c)
+	c25SeqNum(c)
+}
+
+// ---------- stream cipher + MAC (encrypt-and-MAC and EtM)
+func c25Stream(c *Ctx) {
+	modes := []struct{ mac, etm int64 }{{0, 0}, {1, 0}, {1, 1}}
+	if f := c.fn("ssh", "(*streamPacketCipher).writeCipherPacket"); f != nil && len(f.Params) == 5 {
+		frame, order, seq := "", "", ""
 		n := 0
-		if lenV == nil || padV == nil {
-			bad = "length / padding stores not found"
-		} else {
-			for _, pl := range payloads {
-				for _, mode := range []struct{ mac, etm int64 }{{0, 0}, {1, 0}, {1, 1}} {
-					e := newEnv()
-					e.bindLen(f, pkt, pl)
-					e.bindNilTests(f, func(v ssa.Value) bool { return isField(v, "streamPacketCipher", "mac") }, mode.mac == 0)
-					e.bindField(f, "streamPacketCipher", "etm", mode.etm)
-					e.solve(f)
-					L, ok1 := e.eval(lenV)
-					P, ok2 := e.eval(padV)
-					n++
-					if !ok1 || !ok2 {
-						bad = fmt.Sprintf("payload=%d mac=%d etm=%d: length/padding not evaluable", pl, mode.mac, mode.etm)
-						continue
+		for _, pl := range c25payloads {
+			for _, m := range modes {
+				cs := c25case{pl: pl, mac: m.mac, etm: m.etm, bigCap: pl%2 == 1}
+				s, _, bad := c25run(f, cs, false)
+				n++
+				if bad != "" {
+					c25first(&frame, "%v: %s", cs, bad)
+					continue
+				}
+				L, P, bad := c25frame(s.wire, pl, "p4")
+				skip := int64(0)
+				if m.mac == 1 && m.etm == 1 {
+					skip = 4
+				}
+				if bad == "" && (P >= 4+16 || (4+L-skip)%16 != 0) {
+					bad = fmt.Sprintf("padding %d, length field %d (need padding in [4,20), (5+payload+padding-%d)%%16==0, length = 1+payload+padding)", P, L, skip)
+				}
+				if bad == "" {
+					bad = c25clear(s.wire, 0, skip)
+				}
+				if bad == "" {
+					_, bad = c25encrypted(s.wire, skip, 4+L, 0, true)
+				}
+				if bad == "" {
+					bad = c25tail(s.wire, 4+L, "mac", m.mac*s.macSize)
+				}
+				if bad != "" {
+					c25first(&frame, "%v: %s", cs, bad)
+					continue
+				}
+				if m.mac == 1 {
+					sb, ob := c25macCheck(s.events, s.wire[:4+L], m.etm == 1)
+					if sb != "" {
+						c25first(&seq, "%v: %s", cs, sb)
 					}
-					aad := int64(0)
-					if mode.mac == 1 && mode.etm == 1 {
-						aad = 4
-					}
-					if P < 4 || P >= 4+16 || (5+pl+P-aad)%16 != 0 || L != 1+pl+P {
-						bad = fmt.Sprintf("payload=%d mac=%d etm=%d: padding %d, length field %d (need padding in [4,20), (5+payload+padding-%d)%%16==0, length = 1+payload+padding)", pl, mode.mac, mode.etm, P, L, aad)
+					if ob != "" {
+						c25first(&order, "%v: %s", cs, ob)
 					}
 				}
 			}
 		}
-		c.check(bad == "", "C25.framing", "(*streamPacketCipher).writeCipherPacket", f, fmt.Sprintf("padding and length correct on %d (payload, mode) cases", n), bad)
-		c25MacOrder(c, f, "streamPacketCipher", pkt, true)
-		c25SeqFirst(c, f, "streamPacketCipher", f.Params[1])
+		c.check(frame == "", "C25.framing", "(*streamPacketCipher).writeCipherPacket", f, fmt.Sprintf("length || padding length || payload || padding || MAC written, padding and length correct, every byte encrypted once in stream order, on %d (payload, mode) cases", n), frame)
+		c.check(order == "", "C25.mac-order", "(*streamPacketCipher).writeCipherPacket", f, "EtM MACs the packet as sent, plain MAC modes MAC the plaintext packet (both flag values interpreted)", order)
+		c.check(seq == "", "C25.mac-seq", "(*streamPacketCipher).writeCipherPacket", f, "the MAC starts with the big-endian packet sequence number", seq)
 	}
-	if f := c.fn("ssh", "(*streamPacketCipher).readCipherPacket"); f != nil {
-		// data := s.packetData[:length-1]
-		c25MacOrder(c, f, "streamPacketCipher", nil, false)
-		c25SeqFirst(c, f, "streamPacketCipher", f.Params[1])
-	}
-	// ---------- GCM
-	if f := c.fn("ssh", "(*gcmCipher).writeCipherPacket"); f != nil {
-		pkt := f.Params[4]
-		var lenV, padV ssa.Value
-		for _, ci := range calls(f, func(n string) bool { return strings.HasSuffix(n, ").PutUint32") }) {
-			a := ci.Common().Args
-			lenV = a[len(a)-1]
-		}
-		allInstrs(f, func(in ssa.Instruction) {
-			if st, ok := in.(*ssa.Store); ok {
-				if ia, ok := st.Addr.(*ssa.IndexAddr); ok && accessPath(ia.X) == "c.buf" {
-					if k, ok := constInt(ia.Index); ok && k == 0 {
-						padV = st.Val
+	if f := c.fn("ssh", "(*streamPacketCipher).readCipherPacket"); f != nil && len(f.Params) == 3 {
+		frame, order, seq := "", "", ""
+		n := 0
+		for _, pl := range c25payloads {
+			if pl == 0 {
+				continue // a packet without payload is rejected by the layer above
+			}
+			for _, m := range modes {
+				skip := int64(0)
+				if m.mac == 1 && m.etm == 1 {
+					skip = 4
+				}
+				P, L := c25pad(pl, 16, skip)
+				tailN := m.mac * 20
+				enc := func(pos int64) (string, int64) {
+					if pos < skip {
+						return "", 0
+					}
+					return "*", pos - skip
+				}
+				cs := c25case{pl: pl, mac: m.mac, etm: m.etm, bigCap: pl%2 == 1, script: c25wireScript(pl, L, P, enc, "wmac")}
+				s, w, bad := c25run(f, cs, true)
+				n++
+				if bad == "" && s.rpos != 4+L+tailN {
+					bad = fmt.Sprintf("%d bytes are consumed from the connection, the packet has %d", s.rpos, 4+L+tailN)
+				}
+				if bad == "" {
+					bad = c25returned(s, w, pl)
+				}
+				if bad != "" {
+					c25first(&frame, "%v: %s", cs, bad)
+					continue
+				}
+				if m.mac == 1 {
+					image := make([]c25cell, 4+L)
+					for i := range image {
+						image[i] = cs.script(int64(i))
+					}
+					sb, ob := c25macCheck(s.events, image, m.etm == 1)
+					if ob == "" {
+						ob = "the computed MAC is not compared with the received one"
+						for _, e := range s.events {
+							if e.kind == "compare" && (c25allTag(e.data, "mac", 20) && c25allTag(e.aad, "wmac", 20) || c25allTag(e.aad, "mac", 20) && c25allTag(e.data, "wmac", 20)) {
+								ob = ""
+							}
+						}
+					}
+					if sb != "" {
+						c25first(&seq, "%v: %s", cs, sb)
+					}
+					if ob != "" {
+						c25first(&order, "%v: %s", cs, ob)
 					}
 				}
 			}
-		})
-		bad := ""
-		if lenV == nil || padV == nil {
-			bad = "length / padding stores not found"
-		} else {
-			for _, pl := range payloads {
-				e := newEnv()
-				e.bindLen(f, pkt, pl)
-				e.solve(f)
-				L, ok1 := e.eval(lenV)
-				P, ok2 := e.eval(padV)
-				if !ok1 || !ok2 || P < 4 || P >= 20 || (1+pl+P)%16 != 0 || L != 1+pl+P {
-					bad = fmt.Sprintf("payload=%d: padding %d length %d (evaluable %v/%v)", pl, P, L, ok2, ok1)
+		}
+		c.check(frame == "", "C25.framing", "(*streamPacketCipher).readCipherPacket", f, fmt.Sprintf("consumes exactly one packet and returns its payload decrypted on %d (payload, mode) cases", n), frame)
+		c.check(order == "", "C25.mac-order", "(*streamPacketCipher).readCipherPacket", f, "EtM verifies the MAC over the packet as received, plain MAC modes over the decrypted packet (both flag values interpreted)", order)
+		c.check(seq == "", "C25.mac-seq", "(*streamPacketCipher).readCipherPacket", f, "the MAC starts with the big-endian packet sequence number", seq)
+	}
+}
+
+func c25allTag(cells []c25cell, tag string, n int64) bool {
+	if int64(len(cells)) != n {
+		return false
+	}
+	for i, c := range cells {
+		if c.tag != tag || c.idx != int64(i) {
+			return false
+		}
+	}
+	return true
+}
+
+// ---------- AES-GCM
+func c25ivCheck(s *c25sim, ivObj string, counter uint64, wantInc bool) string {
+	want := counter
+	if wantInc {
+		want++
+	}
+	exp := c25ivBytes(want)
+	got := make([]int64, 12)
+	for i := range got {
+		c := s.get(ivObj, int64(i))
+		if !c.known {
+			return fmt.Sprintf("IV byte %d is not a computed value after the packet", i)
+		}
+		got[i] = c.v
+	}
+	for i := range got {
+		if got[i] != exp[i] {
+			if wantInc {
+				return fmt.Sprintf("invocation counter %#016x: the IV becomes % x, expected % x (RFC 5647: iv[4:12] is a 64-bit big-endian counter incremented by one per packet, iv[0:4] is fixed)", counter, c25bytes(got), c25bytes(exp))
+			}
+			return fmt.Sprintf("invocation counter %#016x: the IV changes to % x although no packet was processed", counter, c25bytes(got))
+		}
+	}
+	return ""
+}
+
+func c25bytes(v []int64) []byte {
+	out := make([]byte, len(v))
+	for i, b := range v {
+		out[i] = byte(b)
+	}
+	return out
+}
+
+func c25knownEq(cells []c25cell, want []int64) bool {
+	if len(cells) != len(want) {
+		return false
+	}
+	for i, c := range cells {
+		if !c.known || c.v != want[i] || c.enc != "" {
+			return false
+		}
+	}
+	return true
+}
+
+func c25be32(v int64) []int64 {
+	return []int64{v >> 24 & 0xff, v >> 16 & 0xff, v >> 8 & 0xff, v & 0xff}
+}
+
+// c25aeadOp: the single Seal/Open of a run.
+func c25aeadOp(s *c25sim, kind string) (*c25ev, string) {
+	var op *c25ev
+	for i := range s.events {
+		if s.events[i].kind == kind {
+			if op != nil {
+				return nil, "more than one AEAD operation per packet"
+			}
+			op = &s.events[i]
+		}
+	}
+	if op == nil {
+		return nil, "no AEAD operation on the packet"
+	}
+	return op, ""
+}
+
+// c25persistent: storage that outlives the call (a field of the cipher: the
+// slice it holds, or an array in it).
+func c25persistent(r c25ref) bool {
+	return r.off == 0 && (strings.HasPrefix(r.obj, "S:") || strings.HasPrefix(r.obj, "F:"))
+}
+
+func c25GCM(c *Ctx) {
+	if f := c.fn("ssh", "(*gcmCipher).writeCipherPacket"); f != nil && len(f.Params) == 5 {
+		// where does the nonce live? (probe run; the storage handed to Seal as nonce is the IV)
+		ivObj := ""
+		if s, _, _ := c25run(f, c25case{pl: 10, probe: true}, false); s != nil {
+			if op, _ := c25aeadOp(s, "seal"); op != nil && c25persistent(op.ref) {
+				ivObj = op.ref.obj
+			}
+		}
+		frame, aead, ctr := "", "", ""
+		if ivObj == "" {
+			frame, aead, ctr = "no Seal under a nonce kept in the cipher state found", "no Seal under a nonce kept in the cipher state found", "no Seal under a nonce kept in the cipher state found"
+		}
+		run := func(cs c25case) {
+			cs.ivObj = ivObj
+			s, _, bad := c25run(f, cs, false)
+			if bad != "" {
+				c25first(&frame, "%v: %s", cs, bad)
+				return
+			}
+			L, P, bad := c25frame(s.wire, cs.pl, "p4")
+			if bad == "" && (P >= 20 || L%16 != 0) {
+				bad = fmt.Sprintf("padding %d length %d (need padding in [4,20), (1+payload+padding)%%16 == 0)", P, L)
+			}
+			if bad == "" {
+				bad = c25clear(s.wire, 0, 4)
+			}
+			if bad == "" {
+				var id string
+				if id, bad = c25encrypted(s.wire, 4, 4+L, 0, false); bad == "" && id != "aead" {
+					bad = "the packet body is not the output of the AEAD"
+				}
+			}
+			if bad == "" {
+				bad = c25tail(s.wire, 4+L, "aeadtag", 16)
+			}
+			if bad != "" {
+				c25first(&frame, "%v: %s", cs, bad)
+				return
+			}
+			op, bad := c25aeadOp(s, "seal")
+			switch {
+			case bad != "":
+			case !c25knownEq(op.nonce, c25ivBytes(cs.counter)):
+				bad = "Seal does not use the current IV as nonce"
+			case !c25knownEq(op.aad, c25be32(L)):
+				bad = "Seal does not use the length prefix as additional data"
+			case op.n != L:
+				bad = fmt.Sprintf("Seal encrypts %d bytes, the packet body has %d", op.n, L)
+			}
+			if bad != "" {
+				c25first(&aead, "%v: %s", cs, bad)
+				return
+			}
+			if bad := c25ivCheck(s, ivObj, cs.counter, true); bad != "" {
+				c25first(&ctr, "%s", bad)
+			}
+		}
+		if ivObj != "" {
+			for _, pl := range c25payloads {
+				run(c25case{pl: pl, counter: 0x0102030405060708, bigCap: pl%2 == 1})
+				run(c25case{pl: pl, counter: 0xff, bigCap: pl%2 == 0})
+			}
+			for _, k := range c25counters {
+				run(c25case{pl: 10, counter: k})
+			}
+		}
+		c.check(frame == "", "C25.framing", "(*gcmCipher).writeCipherPacket", f, "length in clear || sealed(padding length || payload || padding) || tag; padding >= 4, (1+payload+padding)%16 == 0, length = 1+payload+padding", frame)
+		c.check(aead == "", "C25.aead", "(*gcmCipher).writeCipherPacket Seal", f, "sealed under the current IV with the length prefix as additional data", aead)
+		c.check(ctr == "", "C25.gcm-counter", "(*gcmCipher).writeCipherPacket", f, fmt.Sprintf("after each sealed packet the IV is the old one with the 64-bit big-endian counter iv[4:12] incremented (mod 2^64) on %d counter values", len(c25counters)), ctr)
+	}
+	if f := c.fn("ssh", "(*gcmCipher).readCipherPacket"); f != nil && len(f.Params) == 3 {
+		mk := func(pl int64) (c25case, int64) {
+			P, L := c25pad(pl, 16, 4)
+			enc := func(pos int64) (string, int64) {
+				if pos < 4 {
+					return "", 0
+				}
+				return "*", 0
+			}
+			return c25case{pl: pl, script: c25wireScript(pl, L, P, enc, "wtag")}, L
+		}
+		ivObj := ""
+		{
+			cs, _ := mk(10)
+			cs.probe = true
+			if s, _, _ := c25run(f, cs, true); s != nil {
+				if op, _ := c25aeadOp(s, "open"); op != nil && c25persistent(op.ref) {
+					ivObj = op.ref.obj
 				}
 			}
 		}
-		c.check(bad == "", "C25.framing", "(*gcmCipher).writeCipherPacket", f, "padding >= 4, (1+payload+padding)%16 == 0, length = 1+payload+padding", bad)
-		seal := calls(f, nameIs("invoke:(crypto/cipher.AEAD).Seal"))
-		okAAD := len(seal) == 1 && accessPath(sliceBase(seal[0].Common().Args[3])) == "c.prefix" && accessPath(seal[0].Common().Args[1]) == "c.iv"
-		c.check(okAAD, "C25.aead", "(*gcmCipher).writeCipherPacket Seal", f, "sealed under c.iv with the length prefix as additional data", "Seal does not use c.iv / the length prefix as additional data")
-		inc := callsNamed(f, "(*ssh.gcmCipher).incIV")
-		c.check(len(inc) == 1 && len(seal) == 1 && precedes(seal[0], inc[0]), "C25.aead", "(*gcmCipher).writeCipherPacket incIV", f, "the invocation counter advances after each sealed packet", "the GCM invocation counter is not advanced after sealing")
+		aead, ctr := "", ""
+		if ivObj == "" {
+			aead, ctr = "no Open under a nonce kept in the cipher state found", "no Open under a nonce kept in the cipher state found"
+		}
+		run := func(pl int64, counter uint64, bigCap, failOpen bool) {
+			cs, L := mk(pl)
+			cs.ivObj, cs.counter, cs.bigCap, cs.failOpen = ivObj, counter, bigCap, failOpen
+			sim, w, bad := c25run(f, cs, true)
+			if bad != "" {
+				c25first(&aead, "%v: %s", cs, bad)
+				return
+			}
+			op, bad := c25aeadOp(sim, "open")
+			switch {
+			case bad != "":
+			case !c25knownEq(op.nonce, c25ivBytes(counter)):
+				bad = "Open does not use the current IV as nonce"
+			case !c25knownEq(op.aad, c25be32(L)):
+				bad = "Open does not use the length prefix as additional data"
+			case op.n != L+16:
+				bad = fmt.Sprintf("Open is given %d bytes, body and tag have %d", op.n, L+16)
+			default:
+				for i, cell := range op.data {
+					if !c25sameContent(cell, cs.script(4+int64(i))) || cell.enc != cs.script(4+int64(i)).enc {
+						bad = fmt.Sprintf("byte %d given to Open is not byte %d of the received packet", i, 4+i)
+						break
+					}
+				}
+			}
+			if bad == "" && !failOpen {
+				if sim.rpos != 4+L+16 {
+					bad = fmt.Sprintf("%d bytes are consumed from the connection, the packet has %d", sim.rpos, 4+L+16)
+				} else {
+					bad = c25returned(sim, w, pl)
+				}
+			}
+			if bad != "" {
+				c25first(&aead, "%v: %s", cs, bad)
+				return
+			}
+			if bad := c25ivCheck(sim, ivObj, counter, !failOpen); bad != "" {
+				if failOpen {
+					bad += " (Open failed)"
+				}
+				c25first(&ctr, "%s", bad)
+			}
+		}
+		if ivObj != "" {
+			for _, pl := range c25payloads {
+				if pl > 0 {
+					run(pl, 0x0102030405060708, pl%2 == 1, false)
+				}
+			}
+			for _, k := range c25counters {
+				run(10, k, false, false)
+				run(10, k, true, true)
+			}
+		}
+		c.check(aead == "", "C25.aead", "(*gcmCipher).readCipherPacket Open", f, "opens body || tag under the current IV with the length prefix as additional data and returns the payload", aead)
+		c.check(ctr == "", "C25.gcm-counter", "(*gcmCipher).readCipherPacket", f, "the invocation counter iv[4:12] advances by one exactly when a packet was opened successfully", ctr)
 	}
-	if f := c.fn("ssh", "(*gcmCipher).readCipherPacket"); f != nil {
-		open := calls(f, nameIs("invoke:(crypto/cipher.AEAD).Open"))
-		inc := callsNamed(f, "(*ssh.gcmCipher).incIV")
-		ok := len(open) == 1 && len(inc) == 1
-		if ok {
-			yes, _ := errSuccessEdges(open[0].(*ssa.Call))
-			cut := edgeSet{}
-			cut.addAll(yes)
-			ok = !pathFromEntry(inc[0], cut) && accessPath(open[0].Common().Args[1]) == "c.iv"
-			// every payload return passes incIV
-			for _, t := range valueReturns(f, 0) {
-				if reachAvoiding([]*ssa.BasicBlock{f.Blocks[0]}, nil, map[*ssa.BasicBlock]bool{inc[0].Block(): true})[t.Block()] {
+}
+
+// ---------- chacha20-poly1305@openssh.com
+func c25ChaCha(c *Ctx) {
+	// key split, from the constructor: which key bytes end up in which field
+	contentObj, lengthObj := "", ""
+	if f := c.fn("ssh", "newChaCha20Cipher"); f != nil && len(f.Params) >= 1 {
+		s := newC25sim(f)
+		w := s.walker()
+		w.env.bind(f.Params[0], 64)
+		end := w.walk(f.Blocks[0], nil)
+		got := map[string]string{}
+		for obj, m := range s.mem {
+			if !strings.HasPrefix(obj, "F:") || len(m) != 32 {
+				continue
+			}
+			lo, ok := int64(-1), true
+			for i := int64(0); i < 32; i++ {
+				cell, has := m[i]
+				if !has || cell.tag != "p0" {
+					ok = false
+					break
+				}
+				if i == 0 {
+					lo = cell.idx
+				} else if cell.idx != lo+i {
 					ok = false
 				}
 			}
-		}
-		c.check(ok, "C25.aead", "(*gcmCipher).readCipherPacket incIV", f, "the invocation counter advances exactly after a successfully opened packet", "the reader's invocation counter does not advance in step with successfully opened packets")
-	}
-	if f := c.fn("ssh", "(*gcmCipher).incIV"); f != nil {
-		// index phi: init K0, step -1, loop while i >= K1
-		var phi *ssa.Phi
-		allInstrs(f, func(in ssa.Instruction) {
-			if p, ok := in.(*ssa.Phi); ok {
-				phi = p
-			}
-		})
-		ok := false
-		detail := "counter loop not recognised"
-		if phi != nil {
-			var k0 int64 = -1
-			step := int64(0)
-			for _, e := range phi.Edges {
-				if bo, isB := e.(*ssa.BinOp); isB && bo.X == ssa.Value(phi) {
-					if k, isC := constInt(bo.Y); isC {
-						if bo.Op == token.SUB {
-							step = -k
-						} else if bo.Op == token.ADD {
-							step = k
-						}
-					}
-				} else {
-					// initial index: a constant expression such as 4+7, or
-					// len(c.iv)-1 with the 12-byte GCM IV (cipherModes table, C27)
-					ev := newEnv()
-					ev.bindLenPath(f, "c.iv", 12)
-					if k, okk := ev.eval(e); okk {
-						k0 = k
-					}
-				}
-			}
-			// which indices are visited: evaluate the loop condition for i = k0, k0+step, …
-			var visited []int64
-			i := k0
-			for n := 0; n < 20; n++ {
-				e := newEnv()
-				e.bind(phi, i)
-				cut := e.cuts(f)
-				// is the increment store reachable from the phi's block?
-				reached := false
-				allInstrs(f, func(in ssa.Instruction) {
-					if st, isS := in.(*ssa.Store); isS {
-						if ia, isIA := st.Addr.(*ssa.IndexAddr); isIA && accessPath(ia.X) == "c.iv" && ia.Index == ssa.Value(phi) {
-							if reach([]*ssa.BasicBlock{phi.Block()}, cut)[st.Block()] {
-								reached = true
-							}
-						}
-					}
-				})
-				if !reached {
-					break
-				}
-				visited = append(visited, i)
-				i += step
-			}
-			detail = fmt.Sprintf("the counter loop touches iv indices %v; RFC 5647 invocation counter is iv[4..11], least significant byte 11 first", visited)
-			ok = len(visited) == 8 && visited[0] == 11 && visited[7] == 4 && step == -1
-		}
-		c.check(ok, "C25.gcm-counter", "(*gcmCipher).incIV", f, "increments the 64-bit counter iv[4:12] with carry from byte 11 up to byte 4", detail)
-	}
-	// ---------- chacha20-poly1305
-	if f := c.fn("ssh", "(*chacha20Poly1305Cipher).writeCipherPacket"); f != nil {
-		pl := f.Params[4]
-		var lenV, padV ssa.Value
-		for _, ci := range calls(f, func(n string) bool { return strings.HasSuffix(n, ").PutUint32") }) {
-			a := ci.Common().Args
-			if accessPath(sliceBase(a[len(a)-2])) == "c.buf" {
-				lenV = a[len(a)-1]
-			}
-		}
-		allInstrs(f, func(in ssa.Instruction) {
-			if st, ok := in.(*ssa.Store); ok {
-				if ia, ok := st.Addr.(*ssa.IndexAddr); ok && accessPath(ia.X) == "c.buf" {
-					if k, ok := constInt(ia.Index); ok && k == 4 {
-						padV = st.Val
-					}
-				}
-			}
-		})
-		bad := ""
-		if lenV == nil || padV == nil {
-			bad = "length / padding stores not found"
-		} else {
-			for _, n := range payloads {
-				e := newEnv()
-				e.bindLen(f, pl, n)
-				e.solve(f)
-				L, ok1 := e.eval(lenV)
-				P, ok2 := e.eval(padV)
-				if !ok1 || !ok2 || P < 4 || P >= 12 || (1+n+P)%8 != 0 || L != 1+n+P {
-					bad = fmt.Sprintf("payload=%d: padding %d length %d (evaluable %v/%v)", n, P, L, ok2, ok1)
-				}
-			}
-		}
-		c.check(bad == "", "C25.framing", "(*chacha20Poly1305Cipher).writeCipherPacket", f, "padding >= 4, (1+payload+padding)%8 == 0, length = 1+payload+padding", bad)
-		// MAC after encryption: poly1305.Sum preceded by the payload XORKeyStream over c.buf
-		sum := callsNamed(f, "internal/poly1305.Sum")
-		var enc ssa.CallInstruction
-		for _, ci := range calls(f, func(n string) bool { return strings.HasSuffix(n, ").XORKeyStream") }) {
-			if sl, ok := ci.Common().Args[1].(*ssa.Slice); ok && accessPath(sliceBase(sl)) == "c.buf" && sl.Low != nil {
-				enc = ci
-			}
-		}
-		c.check(len(sum) == 1 && enc != nil && precedes(enc, sum[0]) && accessPath(sliceBase(sum[0].Common().Args[1])) == "c.buf", "C25.aead", "(*chacha20Poly1305Cipher).writeCipherPacket tag", f, "the tag covers the encrypted length and ciphertext (computed after encryption)", "the Poly1305 tag is not computed over the encrypted packet")
-		c25Nonce(c, f)
-	}
-	if f := c.fn("ssh", "(*chacha20Poly1305Cipher).readCipherPacket"); f != nil {
-		c25Nonce(c, f)
-	}
-	if f := c.fn("ssh", "newChaCha20Cipher"); f != nil {
-		got := map[string]string{}
-		for _, ci := range calls(f, nameIs("builtin:copy")) {
-			a := ci.Common().Args
-			_, fld, _, ok := fieldOf(sliceBase(a[0]))
 			if !ok {
 				continue
 			}
-			if sl, isS := a[1].(*ssa.Slice); isS && sl.X == ssa.Value(f.Params[0]) {
-				lo, hi := "0", "end"
-				if sl.Low != nil {
-					if k, okk := constInt(sl.Low); okk {
-						lo = itoa(k)
-					}
-				}
-				if sl.High != nil {
-					if k, okk := constInt(sl.High); okk {
-						hi = itoa(k)
-					}
-				}
-				got[fld] = lo + ":" + hi
+			got[obj[strings.LastIndex(obj, ".")+1:]] = fmt.Sprintf("key[%d:%d]", lo, lo+32)
+			switch lo {
+			case 0:
+				contentObj = obj
+			case 32:
+				lengthObj = obj
 			}
 		}
-		c.check(got["contentKey"] == "0:32" && got["lengthKey"] == "32:end", "C25.aead", "newChaCha20Cipher key split", f, "payload key = key[:32], length key = key[32:]", fmt.Sprintf("key split is %v; PROTOCOL.chacha20poly1305 requires K_2 = key[:32] for the payload and K_1 = key[32:] for the length", got))
-	}
-	// ---------- CBC writer
-	if f := c.fn("ssh", "(*cbcCipher).writeCipherPacket"); f != nil {
-		pkt := f.Params[4]
-		var lenV, padV ssa.Value
-		for _, ci := range calls(f, func(n string) bool { return strings.HasSuffix(n, ").PutUint32") }) {
-			a := ci.Common().Args
-			if _, isPhi := sliceBase(a[len(a)-2]).(*ssa.Phi); isPhi || accessPath(sliceBase(a[len(a)-2])) == "c.packetData" {
-				if !strings.HasSuffix(accessPath(sliceBase(a[len(a)-2])), "seqNumBytes") {
-					lenV = a[len(a)-1]
-				}
-			}
+		ok := end == "return" && s.problem == "" && contentObj != "" && lengthObj != "" && len(got) == 2
+		c.check(ok, "C25.aead", "newChaCha20Cipher key split", f, "two 32-byte keys: key[:32] and key[32:]", fmt.Sprintf("the 64 key bytes are split as %v (%s %s); PROTOCOL.chacha20poly1305 requires K_2 = key[:32] for the payload and K_1 = key[32:] for the length", got, end, s.problem))
+		if !ok {
+			return
 		}
-		allInstrs(f, func(in ssa.Instruction) {
-			if st, ok := in.(*ssa.Store); ok {
-				if ia, ok := st.Addr.(*ssa.IndexAddr); ok {
-					if k, ok := constInt(ia.Index); ok && k == 0 {
-						if _, isSl := ia.X.(*ssa.Slice); isSl {
-							padV = st.Val
-						}
-					}
-				}
-			}
-		})
-		var bsCall ssa.Value
-		for _, ci := range calls(f, nameIs("invoke:(crypto/cipher.BlockMode).BlockSize")) {
-			bsCall = callValue(ci)
-		}
-		bad := ""
-		if lenV == nil || padV == nil || bsCall == nil {
-			bad = "length / padding stores or block size not found"
-		} else {
-			for _, n := range payloads {
-				for _, bs := range []int64{8, 16} {
-					e := newEnv()
-					e.bindLen(f, pkt, n)
-					e.bind(bsCall, bs)
-					for pass := 0; pass < 3; pass++ {
-						for _, ci := range callsNamed(f, "ssh.maxUInt32") {
-							a0, ok0 := e.eval(ci.Common().Args[0])
-							a1, ok1 := e.eval(ci.Common().Args[1])
-							if ok0 && ok1 {
-								m := a0
-								if a1 > m {
-									m = a1
-								}
-								e.bind(callValue(ci), m)
-							}
-						}
-					}
-					e.solve(f)
-					L, ok1 := e.eval(lenV)
-					P, ok2 := e.eval(padV)
-					P &= 0xff
-					blk := bs
-					if blk < 8 {
-						blk = 8
-					}
-					if !ok1 || !ok2 || P < 4 || (4+L)%blk != 0 || L != 1+n+P || 4+L < 16 {
-						bad = fmt.Sprintf("payload=%d block=%d: padding %d length %d (evaluable %v/%v)", n, bs, P, L, ok2, ok1)
-					}
-				}
-			}
-		}
-		c.check(bad == "", "C25.framing", "(*cbcCipher).writeCipherPacket", f, "padding >= 4, (4+length) multiple of max(8, block), length = 1+payload+padding, packet >= 16 bytes", bad)
-	}
-	// ---------- sequence numbers
-	for _, spec := range []struct{ fn, callee string }{
-		{"(*connectionState).readPacket", ".readCipherPacket"},
-		{"(*connectionState).writePacket", ".writeCipherPacket"},
-	} {
-		f := c.fn("ssh", spec.fn)
-		if f == nil {
-			continue
-		}
-		var call ssa.CallInstruction
-		for _, ci := range calls(f, func(n string) bool { return strings.HasSuffix(n, spec.callee) }) {
-			call = ci
-		}
-		var inc *ssa.Store
-		for _, st := range storesTo(f, "connectionState", "seqNum") {
-			if bo, ok := st.Val.(*ssa.BinOp); ok && bo.Op == token.ADD {
-				inc = st
-			}
-		}
-		ok := call != nil && inc != nil
-		detail := "cipher call or increment not found"
-		if ok {
-			a := call.Common().Args
-			ok = isField(a[0], "connectionState", "seqNum")
-			detail = "the cipher is not given the connection's sequence number"
-			if ok {
-				isInc := func(in ssa.Instruction) bool { return in == ssa.Instruction(inc) }
-				var sinks []ssa.Instruction
-				if strings.Contains(spec.fn, "read") {
-					for _, r := range returnsOf(f) {
-						sinks = append(sinks, r)
-					}
-				} else {
-					sinks = acceptReturns(f, 0)
-				}
-				for _, s := range sinks {
-					s := s
-					if hit := passBefore(call, isInc, func(in ssa.Instruction) bool { return in == s }); hit != nil {
-						ok = false
-						detail = "a return is reachable after the cipher call without incrementing the sequence number"
-					}
-				}
-			}
-		}
-		c.check(ok, "C25.seqnum", spec.fn, f, "the cipher receives seqNum, which is then incremented exactly on the paths that consumed a packet", detail)
-	}
-}
-
-// c25SeqFirst: the first MAC input after Reset is seqNumBytes, filled by PutUint32(seqNum).
-func c25SeqFirst(c *Ctx, f *ssa.Function, typ string, seq ssa.Value) {
-	var reset ssa.CallInstruction
-	for _, ci := range calls(f, nameIs("invoke:(hash.Hash).Reset")) {
-		reset = ci
-	}
-	var first ssa.CallInstruction
-	for _, ci := range calls(f, func(n string) bool { return n == "invoke:(io.Writer).Write" || n == "invoke:(hash.Hash).Write" }) {
-		if !isField(ci.Common().Value, typ, "mac") {
-			continue
-		}
-		if reset != nil && precedes(reset, ci) && (first == nil || precedes(ci, first)) {
-			first = ci
-		}
-	}
-	ok := reset != nil && first != nil && strings.HasSuffix(accessPath(sliceBase(first.Common().Args[0])), ".seqNumBytes")
-	if ok {
-		ok = false
-		for _, ci := range calls(f, func(n string) bool { return strings.HasSuffix(n, ").PutUint32") }) {
-			a := ci.Common().Args
-			if strings.HasSuffix(accessPath(sliceBase(a[len(a)-2])), ".seqNumBytes") && a[len(a)-1] == seq && precedes(ci, first) && strings.Contains(calleeName(ci.Common()), "bigEndian") {
-				ok = true
-			}
-		}
-	}
-	c.check(ok, "C25.mac-seq", fnName(f), f, "the MAC starts with the big-endian packet sequence number", "the MAC's first input is not the big-endian sequence number of this packet")
-}
-
-// c25MacOrder: with EtM the MAC absorbs the encrypted payload, without EtM the plaintext.
-func c25MacOrder(c *Ctx, f *ssa.Function, typ string, payload ssa.Value, writer bool) {
-	// payload value: writer -> parameter; reader -> the slice 'data' that is both MACed and decrypted
-	type ev struct {
-		mac ssa.CallInstruction
-		xor ssa.CallInstruction
-	}
-	var xors, macs []ssa.CallInstruction
-	for _, ci := range calls(f, func(n string) bool { return strings.HasSuffix(n, ").XORKeyStream") }) {
-		a := ci.Common().Args
-		if payload != nil && a[len(a)-1] == payload {
-			xors = append(xors, ci)
-		}
-		if payload == nil {
-			if sl, ok := a[len(a)-1].(*ssa.Slice); ok && strings.HasSuffix(accessPath(sliceBase(sl)), ".packetData") {
-				xors = append(xors, ci)
-			}
-		}
-	}
-	for _, ci := range calls(f, func(n string) bool { return n == "invoke:(io.Writer).Write" || n == "invoke:(hash.Hash).Write" }) {
-		if !isField(ci.Common().Value, typ, "mac") {
-			continue
-		}
-		a := ci.Common().Args[0]
-		if payload != nil && a == payload {
-			macs = append(macs, ci)
-		}
-		if payload == nil {
-			if sl, ok := a.(*ssa.Slice); ok && strings.HasSuffix(accessPath(sliceBase(sl)), ".packetData") {
-				macs = append(macs, ci)
-			}
-		}
-	}
-	if len(xors) != 1 || len(macs) != 2 {
-		c.fail("C25.mac-order", fnName(f), f, fmt.Sprintf("expected one payload XORKeyStream and two conditional MAC writes of the payload; found %d / %d", len(xors), len(macs)))
+	} else {
 		return
 	}
-	bad := ""
-	for etm := int64(0); etm < 2; etm++ {
-		e := newEnv()
-		e.bindNilTests(f, func(v ssa.Value) bool { return isField(v, typ, "mac") }, false)
-		e.bindField(f, typ, "etm", etm)
-		e.solve(f)
-		var live ssa.CallInstruction
-		nLive := 0
-		for _, m := range macs {
-			if e.reach[m.Block()] {
-				live = m
-				nLive++
-			}
+	contentID := fmt.Sprintf("K:%s+0/32", contentObj)
+	lengthID := fmt.Sprintf("K:%s+0/32", lengthObj)
+	wantNonce := append(make([]int64, 8), c25be32(c25seq)...)
+	role := func(id string) string {
+		switch id {
+		case contentID:
+			return "key[:32]"
+		case lengthID:
+			return "key[32:]"
 		}
-		if nLive != 1 {
-			bad = fmt.Sprintf("etm=%d: the payload is MACed %d times", etm, nLive)
-			continue
-		}
-		// order on the paths feasible under this flag value
-		macFirst := pathBetween(live, xors[0], e.cut) && !pathBetween(xors[0], live, e.cut)
-		macAfter := pathBetween(xors[0], live, e.cut) && !pathBetween(live, xors[0], e.cut)
-		if !macFirst && !macAfter {
-			bad = fmt.Sprintf("etm=%d: the order of MAC and cipher on the payload is not fixed", etm)
-			continue
-		}
-		// writer: EtM -> encrypt then MAC (mac after xor); reader: EtM -> MAC then decrypt (mac before xor)
-		want := (etm == 1) != writer
-		if macFirst != want {
-			what := "encryption"
-			if !writer {
-				what = "decryption"
-			}
-			bad = fmt.Sprintf("etm=%d: MAC of the payload happens before %s = %v, RFC/EtM requires %v", etm, what, macFirst, want)
-		}
+		return "an unknown key"
 	}
-	c.check(bad == "", "C25.mac-order", fnName(f), f, "EtM MACs ciphertext, plain MAC modes MAC plaintext (both flag values evaluated)", bad)
+	nonces := func(s *c25sim) string {
+		n := 0
+		for _, e := range s.events {
+			if e.kind == "newcipher" {
+				n++
+				if !c25knownEq(e.nonce, wantNonce) {
+					return "the chacha20 nonce is not 8 zero bytes followed by the big-endian sequence number"
+				}
+			}
+		}
+		if n == 0 {
+			return "no chacha20 instance is created for the packet"
+		}
+		return ""
+	}
+	polyKey := func(key []c25cell) string {
+		if len(key) != 32 {
+			return "the Poly1305 key is not 32 bytes"
+		}
+		for i, k := range key {
+			if k.enc != contentID || k.ks != int64(i) || !k.known || k.v != 0 {
+				return "the Poly1305 key is not the first 32 keystream bytes of the payload cipher (key[:32], block counter 0)"
+			}
+		}
+		return ""
+	}
+	if f := c.fn("ssh", "(*chacha20Poly1305Cipher).writeCipherPacket"); f != nil && len(f.Params) == 5 {
+		frame, tag, nonce, split := "", "", "", ""
+		for _, pl := range c25payloads {
+			cs := c25case{pl: pl, bigCap: pl%2 == 1}
+			s, _, bad := c25run(f, cs, false)
+			if bad != "" {
+				c25first(&frame, "%v: %s", cs, bad)
+				continue
+			}
+			L, P, bad := c25frame(s.wire, pl, "p4")
+			if bad == "" && (P >= 12 || L%8 != 0) {
+				bad = fmt.Sprintf("padding %d length %d (need padding in [4,12), (1+payload+padding)%%8 == 0)", P, L)
+			}
+			if bad == "" {
+				bad = c25tail(s.wire, 4+L, "polytag", 16)
+			}
+			if bad != "" {
+				c25first(&frame, "%v: %s", cs, bad)
+				continue
+			}
+			lid, bad1 := c25encrypted(s.wire, 0, 4, 0, true)
+			cid, bad2 := c25encrypted(s.wire, 4, 4+L, 64, true)
+			switch {
+			case bad1 != "":
+				c25first(&split, "%v: length field: %s", cs, bad1)
+			case bad2 != "":
+				c25first(&split, "%v: %s (the payload starts at keystream block 1)", cs, bad2)
+			case lid != lengthID || cid != contentID:
+				c25first(&split, "%v: the length is encrypted under %s and the payload under %s; PROTOCOL.chacha20poly1305 requires key[32:] for the length and key[:32] for the payload", cs, role(lid), role(cid))
+			}
+			if bad := nonces(s); bad != "" {
+				c25first(&nonce, "%v: %s", cs, bad)
+			}
+			bad = "the Poly1305 tag is not computed over the encrypted packet"
+			for _, e := range s.events {
+				if e.kind != "poly.sum" {
+					continue
+				}
+				bad = polyKey(e.key)
+				if bad == "" && int64(len(e.data)) != 4+L {
+					bad = fmt.Sprintf("the Poly1305 tag covers %d bytes, encrypted length and ciphertext have %d", len(e.data), 4+L)
+				}
+				for i := 0; bad == "" && i < len(e.data); i++ {
+					if !c25sameContent(e.data[i], s.wire[i]) || e.data[i].enc != s.wire[i].enc || e.data[i].ks != s.wire[i].ks {
+						bad = "the Poly1305 tag is not computed over the encrypted packet"
+					}
+				}
+			}
+			if bad != "" {
+				c25first(&tag, "%v: %s", cs, bad)
+			}
+		}
+		c.check(frame == "", "C25.framing", "(*chacha20Poly1305Cipher).writeCipherPacket", f, "length || padding length || payload || padding || tag; padding >= 4, (1+payload+padding)%8 == 0, length = 1+payload+padding", frame)
+		c.check(split == "", "C25.aead", "(*chacha20Poly1305Cipher).writeCipherPacket keys", f, "length encrypted under key[32:] from keystream offset 0, the rest under key[:32] from block 1", split)
+		c.check(tag == "", "C25.aead", "(*chacha20Poly1305Cipher).writeCipherPacket tag", f, "the tag covers the encrypted length and ciphertext (computed after encryption), keyed with the first keystream block of the payload cipher", tag)
+		c.check(nonce == "", "C25.aead", "(*chacha20Poly1305Cipher).writeCipherPacket nonce", f, "12-byte nonce with the big-endian sequence number in bytes 8..11", nonce)
+	}
+	if f := c.fn("ssh", "(*chacha20Poly1305Cipher).readCipherPacket"); f != nil && len(f.Params) == 3 {
+		body, nonce := "", ""
+		for _, pl := range c25payloads {
+			if pl == 0 {
+				continue
+			}
+			P, L := c25pad(pl, 8, 4)
+			enc := func(pos int64) (string, int64) {
+				if pos < 4 {
+					return lengthID, pos
+				}
+				return contentID, 64 + pos - 4
+			}
+			cs := c25case{pl: pl, bigCap: pl%2 == 1, script: c25wireScript(pl, L, P, enc, "wtag")}
+			s, w, bad := c25run(f, cs, true)
+			if bad == "" && s.rpos != 4+L+16 {
+				bad = fmt.Sprintf("%d bytes are consumed from the connection, the packet has %d", s.rpos, 4+L+16)
+			}
+			if bad == "" {
+				bad = c25returned(s, w, pl)
+			}
+			if bad == "" {
+				bad = "the Poly1305 tag of the received packet is not verified"
+				for _, e := range s.events {
+					if e.kind != "poly.verify" {
+						continue
+					}
+					bad = polyKey(e.key)
+					if bad == "" && !c25allTag(e.aad, "wtag", 16) {
+						bad = "the tag verified is not the 16 bytes that follow the packet"
+					}
+					if bad == "" && int64(len(e.data)) != 4+L {
+						bad = fmt.Sprintf("the Poly1305 tag is verified over %d bytes, encrypted length and ciphertext have %d", len(e.data), 4+L)
+					}
+					for i := 0; bad == "" && i < len(e.data); i++ {
+						want := cs.script(int64(i))
+						if !c25sameContent(e.data[i], want) || e.data[i].enc != want.enc || e.data[i].ks != want.ks {
+							bad = "the Poly1305 tag is not verified over the packet as received (encrypted length and ciphertext)"
+						}
+					}
+				}
+			}
+			if bad != "" {
+				c25first(&body, "%v: %s", cs, bad)
+			}
+			if bad := nonces(s); bad != "" {
+				c25first(&nonce, "%v: %s", cs, bad)
+			}
+		}
+		c.check(body == "", "C25.aead", "(*chacha20Poly1305Cipher).readCipherPacket", f, "length decrypted under key[32:], tag verified over the packet as received with the first keystream block of key[:32], payload decrypted from block 1 and returned", body)
+		c.check(nonce == "", "C25.aead", "(*chacha20Poly1305Cipher).readCipherPacket nonce", f, "12-byte nonce with the big-endian sequence number in bytes 8..11", nonce)
+	}
 }
 
-func c25Nonce(c *Ctx, f *ssa.Function) {
-	ok := false
-	for _, ci := range calls(f, func(n string) bool { return strings.HasSuffix(n, ").PutUint32") }) {
-		a := ci.Common().Args
-		if sl, isS := a[len(a)-2].(*ssa.Slice); isS && sl.Low != nil {
-			if k, okk := constInt(sl.Low); okk && k == 8 && a[len(a)-1] == ssa.Value(f.Params[1]) && strings.Contains(calleeName(ci.Common()), "bigEndian") {
-				if mk, isM := sl.X.(*ssa.MakeSlice); isM {
-					if n, okn := constInt(mk.Len); okn && n == 12 {
-						ok = true
+// ---------- CBC writer
+func c25CBC(c *Ctx) {
+	f := c.fn("ssh", "(*cbcCipher).writeCipherPacket")
+	if f == nil || len(f.Params) != 5 {
+		return
+	}
+	frame, mac := "", ""
+	for _, pl := range c25payloads {
+		for _, bs := range []int64{8, 16} {
+			for _, m := range []int64{0, 1} {
+				cs := c25case{pl: pl, bs: bs, mac: m, bigCap: pl%2 == 1}
+				s, _, bad := c25run(f, cs, false)
+				if bad != "" {
+					c25first(&frame, "%v: %s", cs, bad)
+					continue
+				}
+				L, P, bad := c25frame(s.wire, pl, "p4")
+				blk := max(bs, 8)
+				if bad == "" && (P > 255 || (4+L)%blk != 0 || 4+L < 16) {
+					bad = fmt.Sprintf("padding %d length %d (need (4+length) a multiple of %d and at least 16)", P, L, blk)
+				}
+				if bad == "" {
+					_, bad = c25encrypted(s.wire, 0, 4+L, 0, true)
+				}
+				if bad == "" {
+					bad = c25tail(s.wire, 4+L, "mac", m*s.macSize)
+				}
+				if bad != "" {
+					c25first(&frame, "%v: %s", cs, bad)
+					continue
+				}
+				if m == 1 {
+					sb, ob := c25macCheck(s.events, s.wire[:4+L], false)
+					if sb != "" {
+						c25first(&mac, "%v: %s", cs, sb)
+					} else if ob != "" {
+						c25first(&mac, "%v: %s", cs, ob)
 					}
-				} else if al := allocLen(sl.X); al == 12 {
-					ok = true
-				} else if inner, isI := sl.X.(*ssa.Slice); isI && allocLen(inner) == 12 {
-					ok = true
 				}
 			}
 		}
 	}
-	c.check(ok, "C25.aead", fnName(f)+" nonce", f, "12-byte nonce with the big-endian sequence number in bytes 8..11", "the chacha20 nonce is not 8 zero bytes followed by the big-endian sequence number")
+	c.check(frame == "", "C25.framing", "(*cbcCipher).writeCipherPacket", f, "padding >= 4, (4+length) multiple of max(8, block), length = 1+payload+padding, packet >= 16 bytes, whole packet encrypted in order, MAC appended in clear", frame)
+	c.check(mac == "", "C25.mac-order", "(*cbcCipher).writeCipherPacket", f, "the MAC covers the big-endian sequence number and the plaintext packet", mac)
 }
